@@ -53,9 +53,10 @@ def enabled(enq_names):
         ops.append('wait')
         if not closed and not dead:
             ops.append('die')
+            ops.append('dieq')
         if dlv == acc and not closed and not dead:
             ops.append('call')
-        if closed:
+        if closed or dead:
             ops.append('drain')
         return ops
     return f
@@ -82,6 +83,8 @@ def step(st, op):
         dead = True
     elif op == 'die':
         dlv = acc
+        dead = True
+    elif op == 'dieq':
         dead = True
     return (min(acc, 3), min(dlv, 3), closed, dead) if False else (acc, dlv, closed, dead)
 
@@ -118,6 +121,11 @@ def build_script(kind, cfg, hist, target):
             sc.append({'op': 'call', 'var': 'w', 'method': 'enqueue', 'args': ['POISON'], 'h': 'poison'})
             sc.append({'op': 'drain', 'var': 'w', 'h': 'drain', 'timeout': 6})
             sc.append({'op': 'poll_dead', 'var': 'w', 'h': 'poll-dead'})
+        elif op == 'dieq':
+            # ... and dies quietly: the parent makes no call at all between the death and its next operation (the death is
+            # awaited by looking at the thread / process itself, not through the worker's interface)
+            sc.append({'op': 'call', 'var': 'w', 'method': 'enqueue', 'args': ['POISON'], 'h': 'poison'})
+            sc.append({'op': 'child_dead', 'var': 'w', 'kind': kind, 'within': 8, 'h': 'child-dead'})
     # epilogue: end the worker and look at the totals
     sc += [{'op': 'call', 'var': 'w', 'method': 'wait', 'args': [10], 'h': 'final-wait'},
            {'op': 'drain', 'var': 'w', 'h': 'final-drain'},
@@ -155,6 +163,10 @@ def judge(cfg, hist, script, obs):
             if 'ret' not in st:
                 return [('enqueue-fails', st)]
             poisoned = True
+        elif h == 'child-dead':
+            if st.get('ret') is not True:
+                return [('harness', st)]
+            dead = True
         elif h == 'poll-dead':
             if st.get('ret') is not True:
                 return [('worker-not-dead-after-its-target-raised', st)]
@@ -204,7 +216,7 @@ def judge(cfg, hist, script, obs):
 
 
 def run(ctx):
-    ctx.rule = ('history = sequence over {5 enqueue variants, next_result, close, wait, call, drain}; all histories up to the full depth, then '
+    ctx.rule = ('history = sequence over {5 enqueue variants, next_result, close, wait, call, drain, die (target raises, parent drains), dieq (target raises, parent makes no call)}; all histories up to the full depth, then '
                 'extended while the abstract state (outstanding, delivered, closed, dead) is new; x default configurations x {PT, PP, PR} x '
                 '{echo, mutating echo}; every history runs on a fresh real worker and ends with wait/drain/result/enqueue-after-death checks')
     quick = ctx.quick
